@@ -79,8 +79,9 @@ def _cargo_env():
     if os.environ.get("VERIF_COVERAGE"):
         # development aid (docs/BUILDING.md): source coverage of zaphar/ucg under the checks, to find what no check reaches;
         # used with VERIF_BUILD=<scratch dir> and LLVM_PROFILE_FILE, never in a registered command
-        env["RUSTFLAGS"] = "-C instrument-coverage"
+        env["RUSTFLAGS"] = "-C instrument-coverage -C llvm-args=-runtime-counter-relocation"
         env["RUSTUP_TOOLCHAIN"] = "nightly"
+        env.pop("LLVM_PROFILE_FILE", None)        # instrumented proc-macros inside rustc must not write (continuous mode crashes it)
     return env
 
 
